@@ -55,6 +55,8 @@ CONSTANTS Users, UserOrder,      \* abstract users and their order (tuple)
                                      \* (listed entries obey "if we don't care about updates, keep the other user off")
           , DEV_NewGrpNoSupd         \* initTopicNewGrp does not create Topic.supd (initTopicGrp and initTopicMe do): until the group is
                                      \* reloaded, sessions attached in the background never come to the foreground there
+          , DEV_GoneUnlistedDropped  \* procPresReq drops "gone" (= off+rem) from a sender that is not in the contact table ("not in list and
+                                     \* asked to be removed - ignore"): a user invited WITHOUT P is never told that the subscription is gone
           , DEV_LoadContactsClobbers \* loadContacts (first foreground session) overwrites entries learnt while only background
                                      \* sessions were attached: their online flag drops to false without an "off" to the sessions
 
@@ -115,7 +117,7 @@ MeProc(e, m) ==
                                      fwd |-> IF e.en /\ e.on THEN w ELSE "", ras |-> "on", rcmd |-> ""]
            ELSE IF cmd # "rem"
            THEN [e |-> [l |-> TRUE, on |-> upd /\ (DEV_UnlistedDisabledOnline \/ cmd = "en"), en |-> cmd = "en"], fwd |-> IF cmd = "en" THEN w ELSE "", ras |-> "on", rcmd |-> ""]
-           ELSE [e |-> e, fwd |-> "", ras |-> "on", rcmd |-> ""]
+           ELSE [e |-> e, fwd |-> IF w = "gone" /\ ~DEV_GoneUnlistedDropped THEN w ELSE "", ras |-> "on", rcmd |-> ""]
   IN [e |-> r.e, fwd |-> r.fwd, reply |-> (upd \/ req) /\ m.wr, ras |-> r.ras, rcmd |-> r.rcmd, rwr |-> req]
 
 ToldOf(fwd) == IF fwd = "on" THEN "on" ELSE "off"      \* "off" and "gone" both mean: not online
